@@ -320,4 +320,4 @@ pub fn run(rep: &Report) {
     rep.floor("instruction executions", rep.evals(), 20_000);
 }
 
-pub const RULE: &str = "random instructions from all 13 classes the assembler can emit (arithmetic, logic, unary incl. mul/div, shifts/rotates with counts 0..255 immediate and CL, mov, xchg, stack, lea, strings with every prefix, jumps/loops, call/ret/int, all 21 single-opcode instructions, print) in every operand form, executed from adversarial states (registers from {0,1,0x7FFF,0x8000,0xFFFE,0xFFFF,random}, segments making seg*16+off straddle 2^20, divisors 0/1/-1, empty and non-empty call stack) in a build with integer-overflow checks; every class again with its memory / label / string operand aimed at physical 0xFFFFD..0xFFFFF and 0 (operands straddling the end of the 1 MiB space); INT 10h/21h services through the real binary with buffers at the top of memory and short/long/closed stdin. Only aborts are judged here (values belong to C01-C07, C18). Distinct = (instruction class with operand shapes, outcome kind) resp. CLI scenario. Through the binary: every jump/loop spelling taken towards four kinds of program end (label last, behind a written hlt, before hlt / print), free, -i and trap flag; INT 10h/13h and the other services with CX up to 65535.";
+pub const RULE: &str = "random instructions from all 13 classes the assembler can emit (arithmetic, logic, unary incl. mul/div, shifts/rotates with counts 0..255 immediate and CL, mov, xchg, stack, lea, strings with every prefix, jumps/loops, call/ret/int, all 21 single-opcode instructions, print) in every operand form, executed from adversarial states (registers from {0,1,0x7FFF,0x8000,0xFFFE,0xFFFF,random}, segments making seg*16+off straddle 2^20, divisors 0/1/-1, empty and non-empty call stack) in a build with integer-overflow checks; every class again with its memory / label / string operand aimed at physical 0xFFFFD..0xFFFFF and 0 (operands straddling the end of the 1 MiB space); INT 10h/21h services through the real binary with buffers at the top of memory and short/long/closed stdin. Only aborts are judged here (values belong to C01-C07, C18). Distinct = (instruction class with operand shapes, outcome kind) resp. CLI scenario. Through the binary: every jump/loop spelling taken towards four kinds of program end (label last, behind a written hlt, before hlt / print), free, -i and trap flag; INT 10h/13h and the other services with CX up to 65535. The core slice enumerates 5 services x 12 buffer offsets x 6 kinds of standard input completely; what INT 10h/13h writes is compared with the byte sequence wrapped at 2^20.";
